@@ -148,10 +148,22 @@ def run_case(ctx, repo, case):
             num_expanded_year_digits=nd)
     try:
         s = ctx.dumpers[nd].dump(p, fmt)
-    except repo.exceptions.TimePointDumperBoundsError:
-        mode = MODE
-        inst_local = R.tp_rd(mode, p)
-        ctx.ev("custom.bounds_error")
+    except repo.exceptions.TimePointDumperBoundsError as exc:
+        # legitimate only when the year the format must print (in the
+        # format's representation, after its zone conversion) does not fit
+        off = spec.get("target_off")
+        if off is None:
+            off = R.tp_offset_minutes(p)
+        local = R.tp_instant(MODE, p) + off * 60
+        yr = R.rd_to_date(MODE, spec["rep"], int(local // 86400))[0]
+        fits = abs(yr) <= 10 ** (4 + nd) - 1 if "+X" in fmt \
+            else 0 <= yr <= 9999
+        if fits:
+            ctx.violation("custom.bounds", "dump(%r, %r) raised %s although "
+                          "year %d fits the format" % (key, fmt, exc, yr),
+                          p=key, fmt=fmt)
+        else:
+            ctx.ev("custom.bounds_error")
         return
     except Exception as exc:
         ctx.violation("custom.raised", "dump(%r, %r) raised %r" % (
